@@ -321,4 +321,51 @@ S_FMT = Stream(
     check_def="Definition ok (c : nat * nat * Q * string) : bool := let '(w,p,x,s) := c in if string_dec (fmt_fixed w p x) s then true else false.",
     generate=gen_fmt, run_impl=run_fmt, coq_case=coq_fmt, oracle=oracle_fmt, klass=lambda c, o: '%d.%d' % (c['w'], c['p']))
 
-STREAMS = [S_CSV, S_CSVH, S_GPX, S_NET, S_FMT]
+# ------------------------------------------------------------------ WKT tokens (model tie of toWKT / parseWkt)
+
+def gen_wkt(rng, n, tier):
+    out = []
+    for _ in range(n):
+        k = rng.randint(1, 5)
+        val = lambda: rng.choice([rng.uniform(-1000, 1000), float(rng.randint(-50, 50)), 1e-5 * rng.randint(1, 9), -2.5e-7, 1e16, 123456.789, 0.0, -0.0, 1e22])
+        out.append({'pts': [[val(), val()] for _ in range(k)], 'srid': rng.choice(['ENU', 'GEO'])})
+    return out
+
+
+def run_wkt(case):
+    from tracklib.core import ENUCoords, GeoCoords, Obs, Track
+    from tracklib.io.track_reader import TrackReader
+    mk = ENUCoords if case['srid'] == 'ENU' else GeoCoords
+    tr = Track([Obs(mk(x, y, 0)) for x, y in case['pts']])
+    text = tr.toWKT()
+    back = TrackReader.parseWkt(text)
+    return {'text': text, 'back': [[o.position.getX(), o.position.getY()] for o in back], 'tokens': [[str(x), str(y)] for x, y in case['pts']]}
+
+
+def coq_wkt(case, obs):
+    if 'exc' in obs:
+        return None
+    return '(%s, "%s")' % (coq_list('("%s", "%s")' % (a, b) for a, b in obs['tokens']), obs['text'])
+
+
+def oracle_wkt(case, obs):
+    if 'exc' in obs:
+        return 'WKT export / parse raised %s' % obs['exc']
+    if obs['back'] != [[float(x), float(y)] for x, y in case['pts']]:
+        return 'track exported as WKT %r is parsed back as %r' % (case['pts'], obs['back'])
+    return None
+
+
+S_WKT = Stream(
+    name='wkt', budget={'quick': 400, 'thorough': 10000},
+    rule=('tracks of 1..5 points in ENU or geographic coordinates with integer, tiny (scientific notation), huge, negative-zero and many-digit values; the WKT text is compared byte for byte with the '
+          'model (tokens = str(value)) and the model parser must return the upper-cased tokens; oracle: exact equality of the parsed coordinates'),
+    imports='From Coq Require Import List String Ascii Bool.\nImport ListNotations.\nFrom TL Require Import Model.CsvText Model.WktText.\nOpen Scope string_scope.',
+    case_type='list (string * string) * string',
+    check_def=("Definition pair_eqb (a b : string * string) : bool := (if string_dec (fst a) (fst b) then true else false) && (if string_dec (snd a) (snd b) then true else false).\n"
+               "Fixpoint all2 (a b : list (string * string)) : bool := match a, b with [], [] => true | x :: a', y :: b' => pair_eqb x y && all2 a' b' | _, _ => false end.\n"
+               "Definition ok (c : list (string * string) * string) : bool := let '(toks, text) := c in\n"
+               "  (if string_dec (to_wkt toks) text then true else false) && match parse_wkt text with Some l => all2 l (map (fun p => (upper (fst p), upper (snd p))) toks) | None => false end."),
+    generate=gen_wkt, run_impl=run_wkt, coq_case=coq_wkt, oracle=oracle_wkt, nontrivial=lambda c, o: len(c['pts']) >= 2, klass=lambda c, o: '%s,n=%d' % (c['srid'], len(c['pts'])))
+
+STREAMS = [S_CSV, S_CSVH, S_GPX, S_NET, S_FMT, S_WKT]
